@@ -287,6 +287,47 @@ def gen_case(rng: common.Rng, idx: int) -> dict:
             "base_exc": bool(idx % 3 == 1)}
 
 
+_NOFIELD = object()
+
+
+def _st_field(st, names, default=_NOFIELD):
+    """one field of a `_PATCH_STATE` entry, whatever its representation (dict keys or attributes)"""
+    for n in names:
+        if isinstance(st, dict):
+            if n in st:
+                return st[n]
+        elif hasattr(st, n):
+            return getattr(st, n)
+    if default is _NOFIELD:
+        raise KeyError(f"_PATCH_STATE entry {type(st).__name__} has none of {names}")
+    return default
+
+
+def ps_entries_are_dicts() -> bool:
+    """Are `_PATCH_STATE` entries plain dicts (so that a pre-existing entry of an enclosing conversion
+    can be written directly)?  Probed on a dummy class through the real context manager."""
+    from jax2onnx.plugins import plugin_system as psys
+
+    class Dummy:
+        def f(self):
+            return 1
+
+    saved_iter = psys._iter_patch_specs
+    saved_state = dict(psys._PATCH_STATE)
+    psys._PATCH_STATE.clear()
+    psys._iter_patch_specs = lambda: iter([(lambda orig: orig, [Dummy], "f")])
+    try:
+        with psys.apply_monkey_patches():
+            vals = list(psys._PATCH_STATE.values())
+        return bool(vals) and all(isinstance(v, dict) and {"orig", "count"} <= set(v) for v in vals)
+    except Exception:  # noqa: BLE001
+        return False
+    finally:
+        psys._iter_patch_specs = saved_iter
+        psys._PATCH_STATE.clear()
+        psys._PATCH_STATE.update(saved_state)
+
+
 def run_real(case: dict) -> str:
     """Run the case through the REAL apply_patches / apply_monkey_patches; canonical result line."""
     from jax2onnx.plugins import _patching, plugin_system as psys
@@ -368,10 +409,11 @@ def run_real(case: dict) -> str:
                     look.append(f"{t}.{a}={sb.canon(g)}")
                 st = psys._PATCH_STATE.get((sb.t[t], ATTRS[a]))
                 if st is not None:
-                    own_v = st.get("own", "no-own-field")
+                    own_v = _st_field(st, ("own", "own_value"), "no-own-field")
                     own_s = "-" if own_v is _patching._MISSING else (own_v if isinstance(own_v, str)
                                                                       else sb.canon(own_v))
-                    pst.append(f"{t}.{a}={sb.canon(st['orig'])}/{own_s}#{st['count']}")
+                    pst.append(f"{t}.{a}={sb.canon(_st_field(st, ('orig', 'original')))}/{own_s}"
+                               f"#{_st_field(st, ('count', 'depth', 'refcount'))}")
     finally:
         psys._iter_patch_specs = saved_iter
         psys._PATCH_STATE.clear()
@@ -893,6 +935,13 @@ def run(chk: Check) -> None:
     # ---- tie H: sandbox through the real context managers and the Lean driver
     n = 260 if not thorough else 3000
     cases = [gen_case(rng, i) for i in range(n)]
+    if not ps_entries_are_dicts():
+        # the representation of a _PATCH_STATE entry changed: pre-existing entries of an enclosing
+        # conversion cannot be written directly any more; nested `monkey` programs still produce them
+        for c in cases:
+            c["ps"] = []
+        chk.info("pre_state_injection", "unavailable (entries of _PATCH_STATE are not dicts); nested programs only")
+        chk.log("_PATCH_STATE entries are not dicts: pre-existing state is produced by nesting only")
     answers = common.run_driver("C13", [driver_line(c) for c in cases])
     disagreements: list[dict] = []
     tie = {"cases": 0, "raised": 0, "disagreements": 0, "not_restored_in_sandbox": 0,
